@@ -42,7 +42,7 @@ META = dict(
          "the 9 front-end variants plus NumpyStream with a dict input and no time axis and XarrayStream with a second variable on another "
          "dimension without axes (a position test on it cannot run); results collected as list and dict. Oracle: the run and both collections complete "
          "without raising; no failing entry contributes a result; every healthy (stream,test) result equals, bit for "
-         "Scale: 3-25 contexts in which one function cannot run followed / preceded by the same function healthy; tables with 12-40 further measured columns. bit, the result of the configuration that contains only that entry, on the same front end. non-trivial = every "
+         "bit, the result of the configuration that contains only that entry, on the same front end. Scale: 3-25 contexts in which one function cannot run followed / preceded by the same function healthy; tables with 12-40 further measured columns. non-trivial = every "
          "case (each contains a fault)",
     bounds={"quick": {"healthy": "1..2", "faults": "1..2", "rows": 4}, "thorough": {"healthy": "1..2", "faults": "1..3", "rows": "3,4,5"}},
     not_judged=["absent stream id on array-input NumpyStream / QcConfig.run (stream ids are ignored by design)"],
